@@ -67,6 +67,8 @@ def run_unit(ctx: Ctx, qualname: str) -> None:
                 interp.register_shared(env[p])
             else:
                 env[p] = interp.make_symbolic(f"obj {cls_qual}", "self")
+            if interp.class_contract(env[p]) is not None:
+                interp.unit_self = env[p]
             continue
         if p not in fc.params:
             # parameter with a default that the contract leaves out: use the default
@@ -78,6 +80,8 @@ def run_unit(ctx: Ctx, qualname: str) -> None:
                 continue
             raise ContractError(f"{qualname}: no type for parameter {p}")
         env[p] = interp.make_symbolic(fc.params[p], p)
+    for g, t in fc.ghost_params.items():
+        env[g] = interp.make_symbolic(t, g)
     interp.roots = list(env.values())
     slf = env.get("self") if is_method else None
     if isinstance(slf, SObj) and interp.class_contract(slf) is not None:
@@ -138,7 +142,8 @@ def run_unit(ctx: Ctx, qualname: str) -> None:
                 props=fc.props,
                 assume_after=False,
             )
-        finish_unit(interp, fc, env2, old_env, exceptional=True)
+        if declared or fc.exceptional == "app":
+            finish_unit(interp, fc, env2, old_env, exceptional=True)
         return
     ctx.cover(f"{unit}.exit.normal")
     env2 = dict(env)
